@@ -272,7 +272,7 @@ MUTANTS = [
      "note": "both are dead code (min_usage is enforced by an Objective in make_tile_shapes; _factorize_imperfect has no caller): relaxed == strict under the mutants in direct probes, so they are equivalent mutants; replaced by the two live-path mutants above"},
 ]
 MANIFEST = {
-    "level_text": "Metamorphic testing of map_workload_to_arch: a generated strict spec and the same spec with one relaxation (larger memory, larger may_keep, smaller keep, deleted loop bound, lower min_usage, higher fused-loop limits, imperfect factorisation enabled) are both mapped under ENERGY, LATENCY or EDP; the relaxed optimum must not exceed the strict one and feasibility must not be lost. No counterexample in N pairs; not a proof.",
+    "level_text": "Metamorphic testing of map_workload_to_arch (plus extra slots of a targeted imperfect-factorisation family with composite rank bounds >= 12): a generated strict spec and the same spec with one relaxation (larger memory, larger may_keep, smaller keep, deleted loop bound, lower min_usage, higher fused-loop limits, imperfect factorisation enabled) are both mapped under ENERGY, LATENCY or EDP; the relaxed optimum must not exceed the strict one and feasibility must not be lost. No counterexample in N pairs; not a proof.",
     "level_note": "1-2 Einsums, rank bounds <= 7, 2-3 memory levels or a 2-4 wide PE array, non-integral capacities; min_usage > 0 only in min_usage pairs (documented FFM fallback). rel 1e-5.",
     "technique": "property-based metamorphic testing of the mapper (Hypothesis)",
 }
